@@ -189,7 +189,7 @@ class C15(HistoryCampaign):
         files = {"logging_interval": rnd.choice([1, 1, 2, 3, 5, -1, -2, -4]), "logging_mode": rnd.choice(["a", "w"])}
         for role in ("logfile", "trajectory", "restart_file"):
             if rnd.random() < 0.6 and not (role == "restart_file" and sc["driver"] in ("ForceBias", "AdaptiveForceBias")):
-                files[role] = {"name": role, "as": "object", "mode": files["logging_mode"]}
+                files[role] = {"name": role, "as": rnd.choice(["object", "object", "observer"]), "mode": files["logging_mode"]}
         sc["files"] = files
         return sc
 
